@@ -35,6 +35,8 @@ CONSTANTS
   AnyOrder,       \* TRUE: any visible message may be polled; FALSE: smallest ord first
   EnvBetween,     \* TRUE: environment steps may fall between the commits of a handler
   FixRetry,       \* TRUE: model the repaired transient-retry counter (see known finding C14)
+  MaxPauses,      \* bound on operator pause / unpause rounds
+  MaxRestarts,    \* bound on operator RestartStage requests
   TrustNegative   \* dedup_trust_negative_cache: a negative answer of an authoritative filter skips the durable check
 
 VARIABLES
@@ -113,6 +115,9 @@ CancelWorkflowM      == Proto("CancelWorkflow", "", "")
 StartWorkflowM       == Proto("StartWorkflow", "", "")
 JumpM(s, tgt)        == [Proto("JumpToStage", s, "") EXCEPT !.target = tgt]
 SignalM(s, pers, k)  == [Proto("SignalStage", s, "") EXCEPT !.sig = ToString(k), !.pers = pers]   \* k-th signal sent
+PauseTaskM(t)        == Proto("PauseTask", StageOf(t), t)
+ResumeStageM(s)      == Proto("ResumeStage", s, "")
+RestartStageM(s)     == Proto("RestartStage", s, "")
 ContinueParentM(s, ph) == [Proto("ContinueParentStage", s, "") EXCEPT !.phase = ph]
 
 CountKey(pp, typ, s, t) == Cardinality({x \in pp : x[1] = typ /\ x[2] = s /\ x[3] = t})
@@ -222,7 +227,7 @@ StageRow0 == [status |-> "NOT_STARTED", ver |-> 0, started |-> FALSE, fired |-> 
               act |-> {"-"}, bypass |-> FALSE, jumps |-> 0, buf |-> <<>>, sig |-> ""]   \* buf: names of buffered signals, sig: _signal_name
 TaskRow0  == [status |-> "NOT_STARTED", ver |-> 0, prog |-> 0, seen |-> {}]   \* seen: signal names a suspending task has counted
 Cnt0      == [crashes |-> 0, withheld |-> 0, sweeps |-> 0, cancels |-> 0, signals |-> 0, early |-> 0,
-              needSweep |-> FALSE]
+              pauses |-> 0, unpauses |-> 0, restarts |-> 0, needSweep |-> FALSE]
 
 Init ==
   /\ wf = [status |-> "NOT_STARTED", canceled |-> FALSE]
@@ -472,6 +477,7 @@ Outcome(t) ==
     [] b.k = "transient" -> IF tk[t].prog < b.n THEN "transient" ELSE "succ"
     [] b.k = "transientNoCtx" -> IF Len(ledger[t]) < b.n THEN "transientnc" ELSE "succ"
     [] b.k = "jump" -> IF st[s].jumps < b.n THEN "jump" ELSE "succ"
+    [] b.k = "jumpafter" -> IF Len(ledger[t]) >= 1 /\ st[s].jumps < b.n THEN "jump" ELSE "succ"   \* jumps from its 2nd run on
     [] b.k = "suspend" -> IF Cardinality(SeenAfter(t)) >= (IF b.n > 1 THEN b.n ELSE 1) THEN "succ" ELSE "suspend"
 
 JumpTarget(t) ==   \* a script may name a different target per iteration
@@ -480,17 +486,19 @@ JumpTarget(t) ==   \* a script may name a different target per iteration
 RunTaskGuard ==
   /\ H("RunTask")
   /\ LET t == Cur.t IN
-     /\ tk[t].status # "RUNNING" \/ wf.canceled \/ wf.status \in Complete
+     /\ tk[t].status # "RUNNING" \/ wf.canceled \/ wf.status \in Complete \/ wf.status = "PAUSED"
      /\ IF tk[t].status # "RUNNING"
         THEN Commit(<<>>, TRUE) /\ Label("RunTaskIgnored")
-        ELSE Commit(<<CompleteTaskM(t, "CANCELED")>>, TRUE) /\ Label("RunTaskCanceled")
+        ELSE IF wf.canceled \/ wf.status \in Complete
+        THEN Commit(<<CompleteTaskM(t, "CANCELED")>>, TRUE) /\ Label("RunTaskCanceled")
+        ELSE Commit(<<PauseTaskM(t)>>, TRUE) /\ Label("RunTaskPaused")    \* workflow paused by the operator
      /\ SetWk("hdone")
      /\ UNCHANGED <<wf, st, tk, dlq, claims, ledger, gh, cnt>>
 
 RunTaskExec ==
   /\ H("RunTask")
   /\ LET t == Cur.t s == Cur.s IN
-     /\ tk[t].status = "RUNNING" /\ ~wf.canceled /\ wf.status \notin Complete
+     /\ tk[t].status = "RUNNING" /\ ~wf.canceled /\ wf.status \notin Complete /\ wf.status # "PAUSED"
      /\ ledger' = [ledger EXCEPT ![t] = Append(@, [prog |-> tk[t].prog, jumps |-> st[s].jumps, sig |-> st[s].sig])]
      /\ wk' = [wk EXCEPT !.pc = "rt_result", !.out = Outcome(t)]
      /\ LabelN("RunTaskExec")
@@ -837,11 +845,58 @@ SignalStage ==
      ELSE /\ Commit(<<>>, TRUE) /\ SetWk("hdone") /\ Label("SignalDrop")
           /\ UNCHANGED <<wf, st, tk, dlq, claims, ledger, gh, cnt>>
 
+(* handlers/workflow_control.py: PauseTask, ResumeStage, RestartStage *)
+PauseTask ==
+  /\ H("PauseTask")
+  /\ LET t == Cur.t s == Cur.s IN
+     IF tk[t].status \in Complete
+     THEN /\ Commit(<<>>, TRUE) /\ SetWk("hdone") /\ Label("PauseTaskIgnored")
+          /\ UNCHANGED <<wf, st, tk, dlq, claims, ledger, gh, cnt>>
+     ELSE IF ~CanTransition(tk[t].status, "PAUSED") \/ ~CanTransition(st[s].status, "PAUSED")
+     THEN /\ SetWk("failed") /\ LabelN("PauseTaskIllegal") /\ UNCHANGED <<durable, ledger, gh, cnt>>
+     ELSE /\ st' = [Bump(st, s) EXCEPT ![s].status = "PAUSED"]
+          /\ tk' = [Touch(tk, s) EXCEPT ![t].status = "PAUSED"]
+          /\ Commit(<<>>, TRUE) /\ SetWk("hdone") /\ Label("PauseTask")
+          /\ UNCHANGED <<wf, dlq, claims, ledger, gh, cnt>>
+
+ResumeStage ==
+  /\ H("ResumeStage")
+  /\ LET s == Cur.s
+         pt == SelectSeq(TasksOf(s), LAMBDA t : t \in DOMAIN tk /\ tk[t].status = "PAUSED")
+     IN
+     IF st[s].status # "PAUSED"
+     THEN /\ Commit(<<>>, TRUE) /\ SetWk("hdone") /\ Label("ResumeStageIgnored")
+          /\ UNCHANGED <<wf, st, tk, dlq, claims, ledger, gh, cnt>>
+     ELSE /\ st' = [Bump(st, s) EXCEPT ![s].status = "RUNNING"]
+          /\ tk' = [x \in DOMAIN tk |-> IF StageOf(x) = s
+                                        THEN [tk[x] EXCEPT !.ver = @ + 1,
+                                                           !.status = IF pt # <<>> /\ x = pt[1] THEN "RUNNING" ELSE @]
+                                        ELSE tk[x]]
+          /\ wf' = IF wf.status = "PAUSED" THEN [wf EXCEPT !.status = "RUNNING"] ELSE wf   \* only a PAUSED workflow is resumed
+          /\ Commit(IF pt # <<>> THEN <<RunTaskM(pt[1])>> ELSE <<>>, TRUE)
+          /\ SetWk("hdone") /\ Label("ResumeStage")
+          /\ UNCHANGED <<dlq, claims, ledger, gh, cnt>>
+
+RestartStage ==    \* operator restart: re-arms exactly this stage (reset_stage_for_retry) and re-opens a finished workflow
+  /\ H("RestartStage")
+  /\ LET s == Cur.s IN
+     IF wf.canceled \/ st[s].status \notin Complete
+     THEN /\ Commit(<<>>, TRUE) /\ SetWk("hdone") /\ Label("RestartStageIgnored")
+          /\ UNCHANGED <<wf, st, tk, dlq, claims, ledger, gh, cnt>>
+     ELSE /\ st' = [st EXCEPT ![s] = ResetRow(st[s])]
+          /\ tk' = [x \in DOMAIN tk |-> IF StageOf(x) = s THEN [tk[x] EXCEPT !.status = "NOT_STARTED", !.ver = @ + 1] ELSE tk[x]]
+          /\ wf' = IF wf.status \in Complete THEN [wf EXCEPT !.status = "RUNNING"] ELSE wf
+          /\ Commit(<<StartStageM(s)>>, TRUE)
+          /\ gh' = [gh EXCEPT !.rearms[s] = @ + 1, !.resulted = {t \in @ : StageOf(t) # s}]
+          /\ SetWk("hdone") /\ Label("RestartStage")
+          /\ UNCHANGED <<dlq, claims, ledger, cnt>>
+
 Handlers ==
   \/ StartWorkflow \/ StartStage \/ StartStagePlan \/ StartTask
   \/ RunTaskGuard \/ RunTaskExec \/ RunTaskResult \/ CompleteTask
   \/ CompleteStage \/ SkipStage \/ CancelStage \/ CompleteWorkflow
   \/ CancelWorkflowFlag \/ CancelWorkflowTxn \/ JumpToStage \/ SignalStage
+  \/ PauseTask \/ ResumeStage \/ RestartStage
   \/ StartStageCancelSibling \/ StartStageAddChild \/ CompleteStageAddAfter \/ ContinueParent
 
 -----------------------------------------------------------------------------
@@ -941,6 +996,28 @@ SendSignal(s, pers) ==
   /\ lbl' = [name |-> "SendSignal", mid |-> <<"SignalStage", s, IF pers THEN "persistent" ELSE "transient", 0>>, c |-> TRUE]
   /\ UNCHANGED <<wf, st, tk, dlq, claims, wk, ledger>>
 
+PauseWorkflow ==    \* operator: store.pause() - a blind UPDATE of the workflow row
+  /\ EnvOK /\ cnt.pauses < MaxPauses /\ wf.status = "RUNNING"
+  /\ wf' = [wf EXCEPT !.status = "PAUSED"]
+  /\ cnt' = [cnt EXCEPT !.pauses = @ + 1]
+  /\ lbl' = [name |-> "PauseWorkflow", mid |-> NoMsg, c |-> TRUE]
+  /\ UNCHANGED <<st, tk, q, dlq, done, claims, nextId, pushed, wk, ledger, gh>>
+
+Unpause ==          \* Orchestrator.unpause(): one ResumeStage per PAUSED stage, in one transaction
+  /\ EnvOK       \* (no stage PAUSED: nothing is pushed and the workflow row is not touched - it stays PAUSED)
+  /\ cnt.unpauses < 2 * MaxPauses
+  /\ Commit(Map(ResumeStageM, InOrder({s \in DOMAIN st : st[s].status = "PAUSED"})), FALSE)
+  /\ cnt' = [cnt EXCEPT !.unpauses = @ + 1]
+  /\ lbl' = [name |-> "Unpause", mid |-> NoMsg, c |-> TRUE]
+  /\ UNCHANGED <<wf, st, tk, dlq, claims, wk, ledger, gh>>
+
+SendRestart(s) ==   \* Orchestrator.restart()
+  /\ EnvOK /\ cnt.restarts < MaxRestarts /\ s \in DOMAIN st /\ st[s].status \in Complete
+  /\ Commit(<<RestartStageM(s)>>, FALSE)
+  /\ cnt' = [cnt EXCEPT !.restarts = @ + 1]
+  /\ lbl' = [name |-> "SendRestart", mid |-> <<"RestartStage", s, "", 0>>, c |-> TRUE]
+  /\ UNCHANGED <<wf, st, tk, dlq, claims, wk, ledger, gh>>
+
 ClaimSweep ==   \* retention sweep: persistence/sqlite/operations.py:cleanup_completed_stage_claims
   /\ Idle
   /\ claims' = IF wf.status \in Complete THEN <<>> ELSE claims    \* claims of live executions are never swept
@@ -959,6 +1036,7 @@ Environment ==
   \/ Crash \/ Sweep \/ DLQSweep \/ SendCancel \/ ClaimSweep
   \/ \E s \in Stages : EarlyStart(s)
   \/ \E s \in SignalTargets, pers \in BOOLEAN : SendSignal(s, pers)
+  \/ PauseWorkflow \/ Unpause \/ (\E s \in TopLevel : SendRestart(s))
 
 Processor == (\E m \in q : Poll(m)) \/ Dedup \/ DedupTrusted \/ HRet \/ PostMark \/ Ack \/ Withhold \/ HRaise \/ Reschedule
 
